@@ -105,7 +105,33 @@ pub fn diff_input(prop: &str, seed: u64, k: usize, tier: Tier, corpus: &Corpus) 
                     r.pick(&["&", "&&", "&&&", "&&&&&", "datalines4;\n1;;;", "datalines4;\n;;", "cards4;\n;", "1e", "0ff", "$a1", "$a1.", "%eval(1 an", "%eval(a **", "%eval(a <", "**", "<", "=", "$é"])
                 )
             }
-            10..=14 => tg::error_case(&mut r, corpus),
+            10..=13 => tg::error_case(&mut r, corpus),
+            14 => {
+                // numeric spellings whose value depends on exact rounding (long mantissas, halfway
+                // cases) and notation ties: parser options must not differ between builds
+                let lit = match r.below(4) {
+                    0 => tg::NUMERIC_BOUNDARY[r.below(tg::NUMERIC_BOUNDARY.len())].to_string(),
+                    1 => tg::numeric_spelling(&mut r),
+                    2 => {
+                        let n = r.range(17, 32);
+                        let mut s = String::new();
+                        for i in 0..n {
+                            if i == 0 {
+                                s.push((b'1' + r.below(9) as u8) as char);
+                            } else {
+                                s.push((b'0' + r.below(10) as u8) as char);
+                            }
+                        }
+                        if r.chance(1, 2) {
+                            let at = r.range(1, s.len() - 1);
+                            s.insert(at, '.');
+                        }
+                        s
+                    }
+                    _ => tg::random_double_text(&mut r),
+                };
+                tg::numeric_in_context(&lit, &mut r).0
+            }
             15..=17 => soup::macro_soup(&mut r, 12),
             _ => gen::general(&mut r, corpus, tier).0,
         },
